@@ -57,7 +57,8 @@ impl PanicInfo {
 
 thread_local! {
     static LAST_PANIC: RefCell<Option<PanicInfo>> = const { RefCell::new(None) };
-    static QUIET: RefCell<bool> = const { RefCell::new(false) };
+    /// nesting depth of `guard` on this thread (panics are recorded, not printed, while > 0)
+    static QUIET: RefCell<u32> = const { RefCell::new(0) };
 }
 
 /// Install once: panics inside `guard` are recorded instead of printed.
@@ -65,7 +66,7 @@ pub fn install_panic_hook() {
     let default = std::panic::take_hook();
     std::panic::set_hook(Box::new(move |info| {
         let quiet = QUIET.with(|q| *q.borrow());
-        if !quiet {
+        if quiet == 0 {
             default(info);
             return;
         }
@@ -144,10 +145,10 @@ impl<T> Out<T> {
 
 /// run `f`, turning a panic into `Err(PanicInfo)`
 pub fn guard<T>(f: impl FnOnce() -> T) -> Result<T, PanicInfo> {
-    QUIET.with(|q| *q.borrow_mut() = true);
+    QUIET.with(|q| *q.borrow_mut() += 1);
     LAST_PANIC.with(|p| *p.borrow_mut() = None);
     let r = catch_unwind(AssertUnwindSafe(f));
-    QUIET.with(|q| *q.borrow_mut() = false);
+    QUIET.with(|q| *q.borrow_mut() -= 1);
     match r {
         Ok(t) => Ok(t),
         Err(_) => Err(LAST_PANIC.with(|p| p.borrow_mut().take()).unwrap_or(PanicInfo {
